@@ -571,6 +571,31 @@ def hist_bin_of(case, edges, row):
     return tuple(idx)
 
 
+def noise_of(case, ncall):
+    """absolute rounding noise of the statistic handed to each invocation (float64 or float32 accumulation); the
+    comparison d <= sens is made up to this noise so that rounding of numpy's own arithmetic is never reported"""
+    if case["family"] != "stat":
+        return [0.0] * ncall
+    tool = case["tool"]
+    u = 2.0 ** -23 if case.get("dtype") == "float32" else 2.0 ** -52
+    mode, red, red_shape, kept, _ = layout(case)
+    n = int(np.prod(red_shape)) if red_shape else 1
+    out = []
+    for l, hi in cell_bounds(case, ncall):
+        m = max(abs(l), abs(hi))
+        w = hi - l
+        k = 64.0 * (1 + math.log2(max(n, 2)))
+        if tool in ("mean", "nanmean"):
+            out.append(k * u * m)
+        elif tool in ("sum", "nansum"):
+            out.append(k * u * m * n)
+        elif tool in ("var", "nanvar", "std", "nanstd"):
+            out.append(k * u * (m * w + w * w + (m * m if case.get("dtype") == "float32" else 0.0)))
+        else:
+            out.append(0.0)
+    return out
+
+
 def classify(case, nb, site, touched_nan):
     tool = case["tool"]
     if case["family"] == "hist" and case.get("weights") is not None and site in ("sensitivity", "budget"):
@@ -631,6 +656,7 @@ def direct_check(case, nb, forced_seed=1):
     total = 0.0
     worst = (0.0, None)
     qsum = 0.0
+    noises = noise_of(case, len(c1))
     for i, (a, b) in enumerate(zip(c1, c2)):
         ca, cb_ = call_cfg(a), call_cfg(b)
         same = len(ca) == len(cb_) and all((x == y) or (isinstance(x, float) and isinstance(y, float) and x != x and y != y)
@@ -660,7 +686,8 @@ def direct_check(case, nb, forced_seed=1):
             continue
         d = abs(va - vb)
         info["moved"] += 1
-        ratio = d / sens if sens > 0 else float("inf")
+        d_adj = max(0.0, d - noises[i]) if d == d else d
+        ratio = (d_adj / sens if sens > 0 else float("inf")) if d_adj > 0 else 0.0
         if d != d:
             ratio = float("inf")
         total += e_i * ratio
